@@ -1,5 +1,5 @@
 //@PROBE file=src/utils/bbox.rs test=verif_probe_bbox_polygon_c19 clauses=bbox_polygon
-//@BOUND centres {0, 1, -37.5, 1e3, 1e4} x sizes (height {1e-2, 0.1, 1, 40, 1e3} x aspect {0.1, 0.5, 1, 3}) x angles {None, 0, pi/6, pi/2, 2.5, 7.0, -1.0}; vertices against an f64 reference of the rotated rectangle computed from the box fields (tolerance 4 ulp of f32 at the coordinate magnitude), shoelace area / centroid / vertex radius against area() / centre / get_radius() (1e-4 relative); equality of both box types on pairs differing in exactly one coordinate by +-delta across the EPS boundary (position 0..1e4 x size 1e-2..1e3 independently, both argument orders); ltwh -> universal -> ltwh round trip (4 ulp-scale tolerance: 1e-5 relative to the magnitudes involved)
+//@BOUND ltwh round trip over width x height magnitudes {0.01 .. 1e4} (10 x 10, three positions, per-coordinate relative tolerance); centres {0, 1, -37.5, 1e3, 1e4} x sizes (height {1e-2, 0.1, 1, 40, 1e3} x aspect {0.1, 0.5, 1, 3}) x angles {None, 0, pi/6, pi/2, 2.5, 7.0, -1.0}; vertices against an f64 reference of the rotated rectangle computed from the box fields (tolerance 4 ulp of f32 at the coordinate magnitude), shoelace area / centroid / vertex radius against area() / centre / get_radius() (1e-4 relative); equality of both box types on pairs differing in exactly one coordinate by +-delta across the EPS boundary (position 0..1e4 x size 1e-2..1e3 independently, both argument orders); ltwh -> universal -> ltwh round trip (4 ulp-scale tolerance: 1e-5 relative to the magnitudes involved)
 #[cfg(test)]
 mod verif_probe_bbox_polygon_c19 {
     // Bounded stand-in for the representation clauses of C19 that the Kani harnesses cannot pin (sin/cos are
@@ -72,6 +72,22 @@ mod verif_probe_bbox_polygon_c19 {
                 }
             } }
         } }
+        // ---- ltwh round trip over the whole magnitude grid: width and height independently 1e-2..1e4 (thin tall and flat wide boxes
+        // included), every coordinate back within a few ulps of its own magnitude
+        let mags = [0.01f32, 0.03125, 0.05, 0.3, 1.0, 7.0, 60.0, 1000.0, 6000.0, 10000.0];
+        for &w in mags.iter() { for &h in mags.iter() { for (left, top) in [(0.0f32, 0.0f32), (100.0, 50.0), (-3000.25, 9000.5)] {
+            cases += 1;
+            let bb = BoundingBox::new_with_confidence(left, top, w, h, 0.7);
+            match BoundingBox::try_from(&Universal2DBox::from(&bb)) {
+                Err(_) => failures.push(format!("PROBE input: ltwh ({},{},{},{}): bbox_polygon.round_trip: conversion back refused", left, top, w, h)),
+                Ok(r) => {
+                    let (tw, th) = (4e-6 * w, 4e-6 * h);
+                    if (r.width - w).abs() > tw || (r.height - h).abs() > th || (r.left - left).abs() > 2e-6 * (left.abs() + w) || (r.top - top).abs() > 2e-6 * (top.abs() + h) || r.confidence != bb.confidence {
+                        failures.push(format!("PROBE input: ltwh ({},{},{},{}) confidence 0.7: bbox_polygon.round_trip: came back as ({},{},{},{}) confidence {}", left, top, w, h, r.left, r.top, r.width, r.height, r.confidence));
+                    }
+                }
+            }
+        } } }
         // ---- equality: pairs that differ in exactly ONE coordinate by +-delta across the epsilon boundary, both argument orders;
         //      position magnitude and size magnitude vary independently (the decision must follow the difference actually present
         //      in the f32 fields: > EPS => unequal, < EPS => equal)
